@@ -230,6 +230,23 @@ pub fn generate(rng: &mut Rng, tier: &str, w: &mut CaseWriter) {
             }
         }
     }
+    // every value of the byte after "CRAM" (SAM read name continuation / TAB vs CRAM major version),
+    // and of the byte after "BAM" and "BC"
+    for b in 0..=255u8 {
+        let mut m = b"CRAM".to_vec();
+        m.push(b);
+        m.extend_from_slice(b"\t4\t*\t0\t255\t*\t*\t0\t0\tA\tI\n");
+        push(w, false, "--", &m);
+        push(w, false, "--", &m[..5]);
+        let mut m = b"BAM".to_vec();
+        m.push(b);
+        m.extend_from_slice(&[0; 8]);
+        push(w, false, "--", &m);
+        let mut m = b"BC".to_vec();
+        m.push(b);
+        m.extend_from_slice(&[2, 2, 0, 0, 0, 0]);
+        push(w, true, "--", &m);
+    }
     // gzip / BGZF members with short and magic-like contents, whole and cut at every length
     let payloads: Vec<&[u8]> = vec![
         b"", b"B", b"BA", b"BAM", b"BAM\x01", b"BAM\x01\x00\x00\x00\x00\x00\x00\x00\x00", b"BAM\x02", b"CRA", b"CRAM", b"CRAM\x03\x00",
@@ -350,7 +367,7 @@ fn run_hz(c: &Case) -> Obs {
         return Obs::fail("-", "oracle-premise-magic", hex(&s[..s.len().min(4)]));
     }
     let (whole, stop) = gz_oracle(&s, usize::MAX);
-    if whole != payload || stop != "UnexpectedEof" {
+    if whole != payload || stop != "Eof" {
         return Obs::fail("-", "oracle-premise-whole", format!("payload {} bytes, decoder {} bytes then {stop}", payload.len(), whole.len()));
     }
     let mut cuts: Vec<usize> = (0..40.min(s.len())).collect();
